@@ -56,12 +56,15 @@ var c11Preconds = map[string][]string{
 
 func precondFacts(fn *ssa.Function) []an.Fact {
 	var out []an.Fact
-	for _, pc := range c11Preconds[fn.Name()] {
-		// "len(x) >= k"
+	for i, pc := range c11Preconds[fn.Name()] {
+		// "len(x) >= k": the i-th precondition is about the i-th parameter, whatever it is called in the source
 		var name string
 		var k int64
 		fmt.Sscanf(strings.ReplaceAll(pc, "len(", ""), "%s >= %d", &name, &k)
 		name = strings.TrimSuffix(name, ")")
+		if i < len(fn.Params) {
+			name = fn.Params[i].Name()
+		}
 		l := an.LForm{C: map[string]int64{"len(" + name + ")": 1}, K: -k}
 		out = append(out, an.Fact{L: l, Why: "precondition " + pc + " (proved at every call site)"})
 	}
@@ -415,13 +418,28 @@ func isBoundsException(fn *ssa.Function, in ssa.Instruction) bool {
 	if p, ok := sl.X.(*ssa.Parameter); !ok || p.Name() != "d" {
 		return false
 	}
-	// premise: the null test of the BodyLength value dominates the slice
-	dominated := false
-	an.AllInstrs(fn, func(i2 ssa.Instruction) {
-		if call, ok := i2.(*ssa.Call); ok && an.CalleeIs(&call.Call, "fix", "Int.IsNull") && an.Dominates(call, sl) {
-			dominated = true
+	// premise: on every way to the slice the BodyLength value was tested not null (in the function or in a helper it calls)
+	dominated := true
+	xp, _ := an.EnumPathsX(fn, 4096)
+	nx := 0
+	for _, p := range xp {
+		if !p.Passes(in) {
+			continue
 		}
-	})
+		nx++
+		tested := false
+		for _, a := range p.Atoms {
+			if a.Rel == "false" && strings.HasSuffix(a.L, ".IsNull()") {
+				tested = true
+			}
+		}
+		if !tested {
+			dominated = false
+		}
+	}
+	if nx == 0 {
+		dominated = false
+	}
 	// premise: the result is only handed to the checksum function
 	onlyChecksum := true
 	for _, ref := range *sl.Referrers() {
@@ -501,22 +519,27 @@ func proveLenInvariant(c *core.Ctx, fn *ssa.Function, heads map[*ssa.BasicBlock]
 	var phi *ssa.Phi
 	for h := range heads {
 		for _, in := range h.Instrs {
-			if p, ok := in.(*ssa.Phi); ok && p.Comment == "line" {
-				phi = p
+			// the loop-carried byte slice that starts as the first parameter
+			if p, ok := in.(*ssa.Phi); ok && p.Type().Underlying().String() == "[]byte" && len(fn.Params) > 0 {
+				for _, e := range p.Edges {
+					if e == ssa.Value(fn.Params[0]) {
+						phi = p
+					}
+				}
 			}
 		}
 	}
 	if phi == nil {
-		return nil, "no loop-carried slice named line found"
+		return nil, "no loop-carried slice that starts as the first parameter found"
 	}
-	name := "len(line)"
+	name := "len(" + phi.Comment + ")"
 	invFact := an.Fact{L: an.LForm{C: map[string]int64{name: 1}, K: -1}, Why: "loop invariant len(line) ≥ 1 (proved by induction)"}
 	head := phi.Block()
 	for i, pred := range head.Preds {
 		v := phi.Edges[i]
 		if !pred.Dominates(head) || !head.Dominates(pred) {
 			// entry edge: must be the parameter, covered by the precondition
-			if p, ok := v.(*ssa.Parameter); !ok || p.Name() != "line" {
+			if p, ok := v.(*ssa.Parameter); !ok || p != fn.Params[0] {
 				if !head.Dominates(pred) {
 					return nil, "the loop-carried slice does not start as the parameter line"
 				}
@@ -592,13 +615,15 @@ func loopTerminates(fn *ssa.Function, lp []*ssa.BasicBlock, inv []an.Fact) strin
 			}
 		}
 	}
-	if flag == nil || carried == nil {
+	if carried == nil {
 		return ""
 	}
-	// the loop condition is the flag
-	iff, ok := head.Instrs[len(head.Instrs)-1].(*ssa.If)
-	if !ok || iff.Cond != ssa.Value(flag) {
-		return ""
+	// with a flag, the loop condition is the flag; without one (`for { … return … }`) every way back must shorten the slice
+	if flag != nil {
+		iff, ok := head.Instrs[len(head.Instrs)-1].(*ssa.If)
+		if !ok || iff.Cond != ssa.Value(flag) {
+			flag = nil
+		}
 	}
 	paths, _ := an.EnumPaths(fn, 20000)
 	okAll, n := true, 0
@@ -612,9 +637,11 @@ func loopTerminates(fn *ssa.Function, lp []*ssa.BasicBlock, inv []an.Fact) strin
 			}
 			n++
 			// the value the exit flag takes on this way round
-			fv := an.ResolveOnPath(flag.Edges[i], p)
-			if k, isC := an.ConstBool(fv); isC && !k {
-				continue // exit flag cleared: the loop ends after this iteration
+			if flag != nil {
+				fv := an.ResolveOnPath(flag.Edges[i], p)
+				if k, isC := an.ConstBool(fv); isC && !k {
+					continue // exit flag cleared: the loop ends after this iteration
+				}
 			}
 			sl, isSl := an.ResolveOnPath(carried.Edges[i], p).(*ssa.Slice)
 			if !isSl || sl.X != ssa.Value(carried) || sl.Low == nil || sl.High != nil {
